@@ -1,10 +1,14 @@
 /-
 C09 — Every strategy terminates within a bounded number of tests.
-(minimize, minimize-around and minimize-balanced are theorems; collapse-brace and the rewriting
-strategies: see DESIGN.md §4 C09 for what is partial.)
+(minimize, minimize-around and minimize-balanced: the stated bound is a theorem.  collapse-brace:
+termination without internal error and a bound in the number of BYTES are theorems for all five
+splitters, the stated bound in the number of atoms is FALSE — `C09_collapse_regrows_counterexample`,
+recorded finding.  The rewriting strategies: see DESIGN.md §4 C09 for what is partial.)
 -/
 import LithiumProofs.MinimizeLog
 import LithiumProofs.PairsBound
+import LithiumProofs.CollapseBound
+import LithiumProps.C06
 
 namespace Strat
 open Testcase
@@ -106,5 +110,67 @@ example :
     t.WF ∧ (balanced {} (fun _ _ => true) (fun _ => 0) t).nTests = 2 ∧
       (around {} (fun _ _ => true) (fun _ => 0) t).nTests = 1 := by
   decide
+
+theorem reloadOK_of_roundtrip (ld : Bytes → Except Load.Err Testcase)
+    (hld : ∀ d t', ld d = .ok t' → t'.content = d ∧ (∀ p ∈ t'.parts, p ≠ []) ∧ t'.WF) :
+    ReloadOK (fun d => (ld d).toOption) := by
+  intro d t' hd
+  cases hx : ld d with
+  | error e => simp [hx, Except.toOption] at hd
+  | ok t0 =>
+    simp only [hx, Except.toOption, Option.some.injEq] at hd
+    subst hd
+    obtain ⟨a, b, c⟩ := hld d t0 hx
+    exact ⟨c, b, a⟩
+
+/-- what is proved of a run of minimize-collapse-brace with `reload` as the re-loader -/
+def CollapseOK (reload : Bytes → Option Testcase) (cfg : Cfg) (o : Oracle) (clk : Clock) (t : Testcase) : Prop :=
+  (collapse reload cfg o clk t).outOfFuel = false ∧ (collapse reload cfg o clk t).internalError = false ∧
+  (collapse reload cfg o clk t).nTests + 1
+    ≤ 2 * ((t.content.length + Nat.log2 (t.content.length + 1) + 2) * (t.content.length + 1)) + 2
+
+/-- minimize-collapse-brace with ANY of the five splitters as re-loader (symbol mode with any cut
+sets), against EVERY test, every `--min`, `--max ≥ 1`, repeat mode, time limit and clock, on every
+well-formed testcase with non-empty atoms: the strategy terminates by itself, raises no internal
+error (a re-load that fails is skipped, fix e840551), and runs at most
+`2·(C+1)·(C+log2(C+1)+2) + 2` tests where `C` is the number of bytes of the file.  The measure is
+the byte length of the best file — deleting atoms shortens it, collapsing never lengthens it
+(`collapseSub_length`) and a file never has more atoms than bytes — because the number of atoms can
+GROW over a collapse (next theorem). -/
+theorem C09_collapse_terminates (B A : List UInt8) (cfg : Cfg) (o : Oracle) (clk : Clock) (t : Testcase)
+    (h : t.WF) (hne : ∀ p ∈ t.parts, p ≠ []) (hmax : 1 ≤ cfg.max) :
+    CollapseOK (fun d => (Load.loadLine d).toOption) cfg o clk t ∧
+    CollapseOK (fun d => (Load.loadChar d).toOption) cfg o clk t ∧
+    CollapseOK (fun d => (Load.loadSymbol B A d).toOption) cfg o clk t ∧
+    CollapseOK (fun d => (Js.loadJs d).toOption) cfg o clk t ∧
+    CollapseOK (fun d => (Attrs.loadAttrs d).toOption) cfg o clk t :=
+  ⟨collapse_bound _ (reloadOK_of_roundtrip _ Load.C06_roundtrip_line) cfg o clk t h hne hmax,
+   collapse_bound _ (reloadOK_of_roundtrip _ Load.C06_roundtrip_char) cfg o clk t h hne hmax,
+   collapse_bound _ (reloadOK_of_roundtrip _ (Load.C06_roundtrip_symbol B A)) cfg o clk t h hne hmax,
+   collapse_bound _ (reloadOK_of_roundtrip _ Load.C06_roundtrip_jsstr) cfg o clk t h hne hmax,
+   collapse_bound _ (reloadOK_of_roundtrip _ Load.C06_roundtrip_attrs) cfg o clk t h hne hmax⟩
+
+namespace Regrow
+def data : Bytes := "a b x0{\n}x1{\n}x2{\n}x3{\n}x4{\n}x5{\n}".toUTF8.toList
+def collapsed : Bytes := "a b x0{ }x1{ }x2{ }x3{ }x4{ }x5{ }".toUTF8.toList
+def reload : Bytes → Option Testcase := fun d => (Load.loadSymbol [] [0x20] d).toOption
+def suffixOK (c : Bytes) : Bool :=
+  match reload collapsed with
+  | some t => (List.range (t.parts.length + 1)).any (fun j => (t.parts.drop j).flatten == c)
+  | none => false
+def f (c : Bytes) : Bool := c == data || suffixOK c
+end Regrow
+
+/-- The recorded finding `collapse-regrows-atoms` as a theorem about the model: symbol atoms with
+`--cut-after ' '` (and no cut-before characters), the file `a b x0{⏎}x1{⏎}…x5{⏎}` has 3 atoms;
+collapsing makes every `{⏎}` a `{ }`, after whose space the re-load cuts: 9 atoms.  With the
+(deterministic) test that accepts the original, the collapsed text and every atom-aligned suffix of
+it, the run makes 49 tests — the stated bound for n = 3 atoms is `(3+1)·(3+2+2)+1 = 29`. -/
+theorem C09_collapse_regrows_counterexample :
+    (Regrow.reload Regrow.data).map (fun t => (t.len,
+        (collapse Regrow.reload {} (fun _ c => Regrow.f c) (fun _ => 0) t).nTests + 1,
+        (t.len + 1) * (t.len + clog2 t.len + 2) + 1)) = some (3, 49, 29) ∧
+    (Regrow.reload Regrow.collapsed).map (·.len) = some 9 := by
+  decide +kernel
 
 end Strat
